@@ -1,11 +1,14 @@
 //! Correspondence harness: runs the real shapefile library on cases read from
 //! stdin (one list of integers per line) and prints one canonical result line
 //! per case.  Built on every check run against /repo's current working tree.
+mod devices;
 mod wire;
 
 use shapefile::record::{EsriShape, WritableShape};
 use shapefile::*;
 use std::io::{BufRead, Write};
+use devices::*;
+use std::convert::TryFrom;
 use wire::*;
 
 /// A Write sink that records the length of every `write` call.
@@ -49,6 +52,8 @@ macro_rules! with_concrete {
 const K_TABLE: W = 1;
 const K_CTOR: W = 2;
 const K_ENC: W = 3;
+const K_WHIST: W = 4;
+const K_READ: W = 5;
 
 fn case_table(c: &mut Cur) -> Result<Vec<W>, BadCase> {
     let code = c.next()?;
@@ -114,12 +119,323 @@ fn case_enc(c: &mut Cur) -> Result<Vec<W>, BadCase> {
     Ok(out)
 }
 
+fn render_unit_res(r: &Result<(), Error>, out: &mut Vec<W>) {
+    match r {
+        Ok(()) => out.push(0),
+        Err(e) => {
+            out.push(1);
+            render_error(e, out)
+        }
+    }
+}
+
+fn render_dev(d: &Dest, out: &mut Vec<W>) {
+    let d = d.0.borrow();
+    render_bytes(&d.buf, out);
+    out.push(d.flushed as W);
+    out.push(d.ops as W);
+    out.push(d.log.len() as W);
+    for op in &d.log {
+        match op {
+            Op::Write(b) => {
+                out.push(0);
+                render_bytes(b, out)
+            }
+            Op::SeekStart(p) => out.extend([1, *p as W]),
+            Op::SeekEnd => out.push(2),
+            Op::Flush => out.push(3),
+        }
+    }
+}
+
+enum Call {
+    Finalize,
+    Write(Shape),
+    Heal,
+}
+
+macro_rules! write_shapes_as {
+    ($w:expr, $shapes:expr, $T:ty) => {{
+        let v: Result<Vec<$T>, _> = $shapes.into_iter().map(<$T>::try_from).collect();
+        match v {
+            Ok(v) => Some($w.write_shapes(&v)),
+            Err(_) => None,
+        }
+    }};
+}
+
+fn case_whist(c: &mut Cur) -> Result<Vec<W>, BadCase> {
+    let has_shx = c.next()? == 1;
+    let ending = c.next()?;
+    let fdest = c.next()?;
+    let fk = c.next()?;
+    let fpers = c.next()? == 1;
+    let ncalls = c.n()?;
+    let mut calls = vec![];
+    for _ in 0..ncalls {
+        match c.next()? {
+            0 => calls.push(Call::Finalize),
+            1 => {
+                let ctor = read_ctor(c)?;
+                match build(ctor) {
+                    Ok(Shape::NullShape) => return Err(BadCase),
+                    Ok(s) => calls.push(Call::Write(s)),
+                    Err(()) => return Ok(vec![-3]),
+                }
+            }
+            2 => calls.push(Call::Heal),
+            _ => return Err(BadCase),
+        }
+    }
+    if !c.at_end() {
+        return Err(BadCase);
+    }
+    let shp = Dest::default();
+    let shx = Dest::default();
+    if fdest == 1 {
+        shp.0.borrow_mut().fault = Some((fk as usize, fpers));
+    } else if fdest == 2 {
+        shx.0.borrow_mut().fault = Some((fk as usize, fpers));
+    }
+    let (shp2, shx2) = (shp.clone(), shx.clone());
+    let r = std::panic::catch_unwind(std::panic::AssertUnwindSafe(move || -> Option<Vec<Result<(), Error>>> {
+        let mut w = if has_shx {
+            ShapeWriter::with_shx(shp2.clone(), shx2.clone())
+        } else {
+            ShapeWriter::new(shp2.clone())
+        };
+        let mut results = vec![];
+        if ending == 2 {
+            let mut shapes = vec![];
+            for call in calls {
+                match call {
+                    Call::Write(s) => shapes.push(s),
+                    _ => return None,
+                }
+            }
+            let r = match shapes.first() {
+                None => Some(w.write_shapes(&Vec::<Point>::new())),
+                Some(Shape::Point(_)) => write_shapes_as!(w, shapes, Point),
+                Some(Shape::PointM(_)) => write_shapes_as!(w, shapes, PointM),
+                Some(Shape::PointZ(_)) => write_shapes_as!(w, shapes, PointZ),
+                Some(Shape::Polyline(_)) => write_shapes_as!(w, shapes, Polyline),
+                Some(Shape::PolylineM(_)) => write_shapes_as!(w, shapes, PolylineM),
+                Some(Shape::PolylineZ(_)) => write_shapes_as!(w, shapes, PolylineZ),
+                Some(Shape::Polygon(_)) => write_shapes_as!(w, shapes, Polygon),
+                Some(Shape::PolygonM(_)) => write_shapes_as!(w, shapes, PolygonM),
+                Some(Shape::PolygonZ(_)) => write_shapes_as!(w, shapes, PolygonZ),
+                Some(Shape::Multipoint(_)) => write_shapes_as!(w, shapes, Multipoint),
+                Some(Shape::MultipointM(_)) => write_shapes_as!(w, shapes, MultipointM),
+                Some(Shape::MultipointZ(_)) => write_shapes_as!(w, shapes, MultipointZ),
+                Some(Shape::Multipatch(_)) => write_shapes_as!(w, shapes, Multipatch),
+                Some(Shape::NullShape) => None,
+            };
+            results.push(r?);
+        } else {
+            for call in &calls {
+                match call {
+                    Call::Finalize => results.push(w.finalize()),
+                    Call::Heal => {
+                        shp2.0.borrow_mut().fault = None;
+                        shx2.0.borrow_mut().fault = None;
+                        results.push(Ok(()));
+                    }
+                    Call::Write(s) => {
+                        let r = with_concrete!(s, x => w.write_shape(x), unreachable!());
+                        results.push(r);
+                    }
+                }
+            }
+            if ending == 1 {
+                results.push(w.finalize());
+            }
+            drop(w);
+        }
+        Some(results)
+    }));
+    let mut out = vec![];
+    match r {
+        Err(_) => out.push(-4),
+        Ok(None) => return Err(BadCase),
+        Ok(Some(results)) => {
+            out.push(results.len() as W);
+            for r in &results {
+                render_unit_res(r, &mut out);
+            }
+            render_dev(&shp, &mut out);
+            render_dev(&shx, &mut out);
+        }
+    }
+    Ok(out)
+}
+
+enum ROp {
+    Iter(W),
+    Nth(W),
+    Seek(W),
+    Count,
+    Hint,
+}
+
+fn render_item<S: Into<Shape>>(r: Result<S, Error>, out: &mut Vec<W>) {
+    match r {
+        Ok(s) => {
+            out.push(0);
+            render_shape(&s.into(), out)
+        }
+        Err(e) => {
+            out.push(1);
+            render_error(&e, out)
+        }
+    }
+}
+
+fn run_rops<S: ReadableShape + Into<Shape>>(
+    reader: &mut ShapeReader<Source>,
+    ops: &[ROp],
+    cap: usize,
+    out: &mut Vec<W>,
+) {
+    for op in ops {
+        match op {
+            ROp::Iter(j) => {
+                let limit = if *j < 0 { cap } else { cap.min(*j as usize) };
+                let mut items = vec![];
+                let mut ended = false;
+                {
+                    let mut it = reader.iter_shapes_as::<S>();
+                    while items.len() < limit {
+                        match it.next() {
+                            None => {
+                                ended = true;
+                                break;
+                            }
+                            Some(r) => items.push(r),
+                        }
+                    }
+                }
+                out.push(items.len() as W);
+                for r in items {
+                    render_item(r, out);
+                }
+                out.push(ended as W);
+            }
+            ROp::Nth(i) => match reader.read_nth_shape_as::<S>(*i as usize) {
+                None => out.push(0),
+                Some(r) => {
+                    out.push(1);
+                    render_item(r, out)
+                }
+            },
+            ROp::Seek(k) => render_unit_res(&reader.seek(*k as usize), out),
+            ROp::Count => match reader.shape_count() {
+                Ok(n) => out.extend([0, n as W]),
+                Err(e) => {
+                    out.push(1);
+                    render_error(&e, out)
+                }
+            },
+            ROp::Hint => {
+                let it = reader.iter_shapes_as::<S>();
+                match it.size_hint() {
+                    (lo, Some(hi)) if lo == hi => out.extend([1, lo as W]),
+                    (0, None) => out.push(0),
+                    (lo, hi) => out.extend([2, lo as W, hi.map(|h| h as W).unwrap_or(-1)]),
+                }
+            }
+        }
+    }
+}
+
+fn case_read(c: &mut Cur) -> Result<Vec<W>, BadCase> {
+    let req = c.next()?;
+    let has_shx = c.next()? == 1;
+    let fk = c.next()?;
+    let fpers = c.next()? == 1;
+    let nsched = c.n()?;
+    let mut sched = vec![];
+    for _ in 0..nsched {
+        sched.push(c.n()?);
+    }
+    let shp = read_bytes(c)?;
+    let shx = if has_shx { read_bytes(c)? } else { vec![] };
+    let nops = c.n()?;
+    let mut ops = vec![];
+    for _ in 0..nops {
+        ops.push(match c.next()? {
+            0 => ROp::Iter(c.next()?),
+            1 => ROp::Nth(c.next()?),
+            2 => ROp::Seek(c.next()?),
+            3 => ROp::Count,
+            4 => ROp::Hint,
+            _ => return Err(BadCase),
+        });
+    }
+    if !c.at_end() {
+        return Err(BadCase);
+    }
+    let cap = shp.len() / 12 + shx.len() / 8 + 2;
+    let r = std::panic::catch_unwind(std::panic::AssertUnwindSafe(move || {
+        let mut out = vec![];
+        let mut src = Source::new(shp);
+        if fk >= 0 {
+            src.fault = Some((fk as usize, fpers));
+        }
+        src.sched = sched;
+        let reader = if has_shx {
+            ShapeReader::with_shx(src, Source::new(shx))
+        } else {
+            ShapeReader::new(src)
+        };
+        match reader {
+            Err(e) => {
+                out.push(1);
+                render_error(&e, &mut out);
+            }
+            Ok(mut reader) => {
+                out.push(0);
+                let h = *reader.header();
+                out.extend([h.file_length as W, h.shape_type as i32 as W, h.version as W]);
+                out.extend([
+                    fb(h.bbox.min.x), fb(h.bbox.min.y), fb(h.bbox.max.x), fb(h.bbox.max.y),
+                    fb(h.bbox.min.z), fb(h.bbox.max.z), fb(h.bbox.min.m), fb(h.bbox.max.m),
+                ]);
+                match req {
+                    -1 => run_rops::<Shape>(&mut reader, &ops, cap, &mut out),
+                    1 => run_rops::<Point>(&mut reader, &ops, cap, &mut out),
+                    21 => run_rops::<PointM>(&mut reader, &ops, cap, &mut out),
+                    11 => run_rops::<PointZ>(&mut reader, &ops, cap, &mut out),
+                    3 => run_rops::<Polyline>(&mut reader, &ops, cap, &mut out),
+                    23 => run_rops::<PolylineM>(&mut reader, &ops, cap, &mut out),
+                    13 => run_rops::<PolylineZ>(&mut reader, &ops, cap, &mut out),
+                    5 => run_rops::<Polygon>(&mut reader, &ops, cap, &mut out),
+                    25 => run_rops::<PolygonM>(&mut reader, &ops, cap, &mut out),
+                    15 => run_rops::<PolygonZ>(&mut reader, &ops, cap, &mut out),
+                    8 => run_rops::<Multipoint>(&mut reader, &ops, cap, &mut out),
+                    28 => run_rops::<MultipointM>(&mut reader, &ops, cap, &mut out),
+                    18 => run_rops::<MultipointZ>(&mut reader, &ops, cap, &mut out),
+                    31 => run_rops::<Multipatch>(&mut reader, &ops, cap, &mut out),
+                    _ => return None,
+                }
+            }
+        }
+        Some(out)
+    }));
+    match r {
+        Err(_) => Ok(vec![2]),
+        Ok(None) => Err(BadCase),
+        Ok(Some(out)) => Ok(out),
+    }
+}
+
 fn run_case(v: &[W]) -> Vec<W> {
     let mut c = Cur::new(v);
     let r = match c.next() {
         Ok(K_TABLE) => case_table(&mut c),
         Ok(K_CTOR) => case_ctor(&mut c),
         Ok(K_ENC) => case_enc(&mut c),
+        Ok(K_WHIST) => case_whist(&mut c),
+        Ok(K_READ) => case_read(&mut c),
         _ => Err(BadCase),
     };
     match r {
@@ -155,9 +471,107 @@ fn sweep(lo: i64, hi: i64) {
     writeln!(o, "count {} {} {}", n, lo, hi).unwrap();
 }
 
+fn print_items<S: Into<Shape>>(r: Result<Vec<S>, Error>) {
+    let mut out: Vec<W> = vec![];
+    match r {
+        Ok(v) => {
+            out.push(v.len() as W);
+            for s in v {
+                out.push(0);
+                render_shape(&s.into(), &mut out);
+            }
+        }
+        Err(e) => {
+            out.push(-1);
+            render_error(&e, &mut out);
+        }
+    }
+    let s: Vec<String> = out.iter().map(|x| x.to_string()).collect();
+    println!("{}", s.join(" "));
+}
+
+macro_rules! typed_path_read {
+    ($path:expr, $first:expr) => {
+        match $first {
+            Shape::Point(_) => print_items(shapefile::read_shapes_as::<_, Point>($path)),
+            Shape::PointM(_) => print_items(shapefile::read_shapes_as::<_, PointM>($path)),
+            Shape::PointZ(_) => print_items(shapefile::read_shapes_as::<_, PointZ>($path)),
+            Shape::Polyline(_) => print_items(shapefile::read_shapes_as::<_, Polyline>($path)),
+            Shape::PolylineM(_) => print_items(shapefile::read_shapes_as::<_, PolylineM>($path)),
+            Shape::PolylineZ(_) => print_items(shapefile::read_shapes_as::<_, PolylineZ>($path)),
+            Shape::Polygon(_) => print_items(shapefile::read_shapes_as::<_, Polygon>($path)),
+            Shape::PolygonM(_) => print_items(shapefile::read_shapes_as::<_, PolygonM>($path)),
+            Shape::PolygonZ(_) => print_items(shapefile::read_shapes_as::<_, PolygonZ>($path)),
+            Shape::Multipoint(_) => print_items(shapefile::read_shapes_as::<_, Multipoint>($path)),
+            Shape::MultipointM(_) => print_items(shapefile::read_shapes_as::<_, MultipointM>($path)),
+            Shape::MultipointZ(_) => print_items(shapefile::read_shapes_as::<_, MultipointZ>($path)),
+            Shape::Multipatch(_) => print_items(shapefile::read_shapes_as::<_, Multipatch>($path)),
+            Shape::NullShape => println!("-1"),
+        }
+    };
+}
+
+/// Files on disk opened by path: the shapes of one writer history (read from
+/// stdin, kind-4 format without the kind) are written with
+/// `ShapeWriter::from_path`, then read back with `read_shapes` (index present),
+/// `read_shapes_as::<T>` and, after removing the .shx, `ShapeReader::from_path`.
+fn path_mode(path: &str) {
+    let mut line = String::new();
+    std::io::stdin().read_line(&mut line).unwrap();
+    let v: Vec<W> = line.split_ascii_whitespace().map(|t| t.parse::<W>().unwrap()).collect();
+    let mut c = Cur::new(&v);
+    for _ in 0..5 {
+        c.next().unwrap();
+    }
+    let n = c.n().unwrap();
+    let mut shapes = vec![];
+    for _ in 0..n {
+        assert_eq!(c.next().unwrap(), 1);
+        shapes.push(build(read_ctor(&mut c).unwrap()).expect("constructor"));
+    }
+    {
+        let mut w = ShapeWriter::from_path(path).expect("create");
+        for s in &shapes {
+            with_concrete!(s, x => w.write_shape(x), unreachable!()).expect("write");
+        }
+    }
+    print_items(shapefile::read_shapes(path));
+    typed_path_read!(path, &shapes[0]);
+    std::fs::remove_file(std::path::Path::new(path).with_extension("shx")).unwrap();
+    print_items(ShapeReader::from_path(path).and_then(|r| r.read()));
+    std::fs::remove_file(path).unwrap();
+}
+
+static CASE_COUNTER: std::sync::atomic::AtomicU64 = std::sync::atomic::AtomicU64::new(0);
+
+/// Aborts the process when one case runs for more than 30 s (a hang is then
+/// reported by the driver as a dead harness on that case).
+fn watchdog() {
+    std::thread::spawn(|| {
+        use std::sync::atomic::Ordering;
+        let mut last = CASE_COUNTER.load(Ordering::Relaxed);
+        let mut since = std::time::Instant::now();
+        loop {
+            std::thread::sleep(std::time::Duration::from_millis(200));
+            let cur = CASE_COUNTER.load(Ordering::Relaxed);
+            if cur != last {
+                last = cur;
+                since = std::time::Instant::now();
+            } else if cur % 2 == 1 && since.elapsed().as_secs() >= 30 {
+                std::process::abort();
+            }
+        }
+    });
+}
+
 fn main() {
     std::panic::set_hook(Box::new(|_| {}));
+    watchdog();
     let args: Vec<String> = std::env::args().collect();
+    if args.len() == 3 && args[1] == "path" {
+        path_mode(&args[2]);
+        return;
+    }
     if args.len() == 4 && args[1] == "sweep" {
         sweep(args[2].parse().unwrap(), args[3].parse().unwrap());
         return;
@@ -174,9 +588,12 @@ fn main() {
             .split_ascii_whitespace()
             .map(|t| t.parse::<W>().expect("integer"))
             .collect();
+        CASE_COUNTER.fetch_add(1, std::sync::atomic::Ordering::Relaxed); // odd: a case is running
         let out = run_case(&v);
+        CASE_COUNTER.fetch_add(1, std::sync::atomic::Ordering::Relaxed);
         let s: Vec<String> = out.iter().map(|x| x.to_string()).collect();
         writeln!(o, "{}", s.join(" ")).unwrap();
+        o.flush().unwrap();
     }
     o.flush().unwrap();
     let _ = EsriShapeMarker;
